@@ -393,6 +393,10 @@ func (r *runner) execOps(ops []op) bool {
 			n.advance(o.Delta, o.Each)
 			// scheduling only (no verdict depends on it): give the client a moment to fetch what it can while nobody reads
 			_ = n.wait(r.caughtUp, waitQuiet, 150*time.Millisecond)
+			// like the scripted drops: not while an eth_getLogs call is in flight (go-ethereum's rpc client can lose such a call
+			// without failing it, after which the stream never resumes - section 19.4; such a stall is inconclusive, not a verdict)
+			_ = n.wait(func() bool { return n.inflight == 0 }, waitQuiet, 500*time.Millisecond)
+			r.barrier()
 			n.drop()
 			// let the client come back (scheduling only), so that the heads that follow reach its NEW subscription while the
 			// consumer still is not reading
